@@ -35,7 +35,7 @@ def build(tier):
                                     [(3, 2, 0, True, "function"), (2, 3, 0, True, "function"), (2, 3, 2, True, "set"), (2, 3, 1, True, "cpp_attr"), (2, 2, 0, False, "macro")]):
         obs.append(lay("crlf", n, l, k, leader, kind, t))
     # C04.c letter case of command names and C04.f token positions: symbolic in every inductive-step shard (oracle ignores them)
-    obs += steps.step_obligations("C04.c/f", ["function", "set", "cpp_class", "cpp_end_class", "endmacro", "ct_add_test", "option"], tier, 1, 1, symargs=False)
+    obs += steps.step_obligations("C04.c/f", ["function", "macro", "set", "cpp_class", "cpp_end_class", "endmacro", "ct_add_test", "cpp_member", "option"], tier, 1, 1, symargs=False)
     # C04.b arguments spread over several lines (symbolic line/column of every argument token): same generic entry
     for st in ([['s', ['s', 's'], 's'], ['s', ['s', ['s']], ['s'], 's']]):
         nleaves = lambda x: sum(nleaves(y) if isinstance(y, list) else 1 for y in x)
